@@ -341,7 +341,8 @@ func inject(t *rapid.T, c *Case, kind string) (df Defect, ok bool) {
 		if !found {
 			return df, false
 		}
-		df.Name = rapid.SampledFrom([]string{"Nope", "T9", "query", "Nope!", "[Nope]"}).Draw(t, "badType")
+		// (a directive is not a type, whatever it is called)
+		df.Name = rapid.SampledFrom([]string{"Nope", "T9", "query", "Nope!", "[Nope]", "skip", "include", "deprecated", "onquery", "onfield"}).Draw(t, "badType")
 		insertAt(t, sr.sels, &hx.Sel{Kind: "inline", On: df.Name, Sels: []*hx.Sel{{Kind: "field", Alias: "dfct", Name: "__typename"}}})
 		df.Key, df.Con, df.Depth, df.Rejected = "dfct", sr.con, sr.depth, true
 	case "undefined-condition-fragment":
@@ -349,7 +350,7 @@ func inject(t *rapid.T, c *Case, kind string) (df Defect, ok bool) {
 		if !found {
 			return df, false
 		}
-		df.Name = rapid.SampledFrom([]string{"Nope", "T9", "Nope!", "[T9]"}).Draw(t, "badType")
+		df.Name = rapid.SampledFrom([]string{"Nope", "T9", "Nope!", "[T9]", "skip", "deprecated", "go", "onfield"}).Draw(t, "badType")
 		c.Doc.Frags = append(c.Doc.Frags, &hx.Frag{Name: "FBad", On: df.Name, Sels: []*hx.Sel{{Kind: "field", Alias: "dfct", Name: "__typename"}}})
 		if len(c.Doc.Order) > 0 {
 			pos := rapid.IntRange(0, len(c.Doc.Order)).Draw(t, "fragPos")
